@@ -22,7 +22,7 @@ def design(ctx):
     """(a) model-level laws of Locs: composition (position independence), locations exist, no duplicates,
     slice readings coincide in the strict region."""
     cfg = "JsonPathLaws_small.cfg" if ctx.quick else "JsonPathLaws_big.cfg"
-    ctx.design("JsonPathLaws", cfg, workers=4 if ctx.quick else 8, coverage=not ctx.quick, heap="6g", timeout=1200)
+    ctx.design("JsonPathLaws", cfg, workers=4 if ctx.quick else 8, coverage=not ctx.quick, heap="6g" if ctx.quick else "10g", timeout=1200)
 
 
 def gen_cases(ctx, nrand, nodesc_last=False, full=None, lite=False):
